@@ -359,6 +359,12 @@ example : refineCheck (flowOf [0, 0, 1, 1, 1, 0]) unit vcfg 6 2 80
     (initState 2 vcfg [(0, 0), (0, 1), (0, 2), (1, 3), (1, 4), (0, 5)]) 0 = some 39 := by
   decide +kernel
 
+/-- the bound `6·n + 4` of `vc_on_kernel_run_returns` is exact for that workload (`n = 6`): `run()` has not returned after 39
+iterations (the 39th kernel step has just been taken, the empty agenda is noticed by the 40th) and has after 40 -/
+example : (finalVc [0, 0, 1, 1, 1, 0] 39 [(0, 0), (0, 1), (0, 2), (1, 3), (1, 4), (0, 5)]).isNone = true ∧
+    (finalVc [0, 0, 1, 1, 1, 0] 40 [(0, 0), (0, 1), (0, 2), (1, 3), (1, 4), (0, 5)]).isSome = true := by
+  decide +kernel
+
 /-- idle gaps: a class that returns after its `aux_vc` has fallen behind the clock is stamped `now + vtick` (13/2, 15/2);
 each packet is served at its arrival instant -/
 example : runVc [0, 1, 0] 80 [(1, 0), (5, 1), (1/2, 2)] = some (0, [2, 13/2, 15/2], true) ∧
@@ -868,6 +874,12 @@ between the abstractions of the two states (`refineCheck` replays the inferred a
 compares with `absWFQ`) -/
 example : refineCheck 2 (flowOfW [0, 0, 1, 1, 1, 0]) unitW wcfg 6 12 80
     (initState 2 [(0, 0), (0, 1), (0, 2), (1, 3), (1, 4), (0, 5)]) 0 = some 39 := by
+  decide +kernel
+
+/-- the bound `6·n + 4` of `wfq_on_kernel_run_returns` is exact for that workload (`n = 6`): `run()` has not returned after 39
+iterations and has after 40 -/
+example : (finalWfq [0, 0, 1, 1, 1, 0] 39 [(0, 0), (0, 1), (0, 2), (1, 3), (1, 4), (0, 5)]).isNone = true ∧
+    (finalWfq [0, 0, 1, 1, 1, 0] 40 [(0, 0), (0, 1), (0, 2), (1, 3), (1, 4), (0, 5)]).isSome = true := by
   decide +kernel
 
 /-- a busy period that ends and restarts: packets 0 (class 0) and 1 (class 1) arrive at 1, packet 2 (class 0, stamp 2) at 3/2;
